@@ -139,4 +139,9 @@ def check(ctx: Ctx) -> str:
     ctx.check(ok_fe, "forceescape", "filters:do_forceescape", "forceescape", "forceescape must escape the plain string form of its input", fe.loc())
     ft = repo.const_map("filters:FILTERS")
     ctx.check(ft.get("e") == "escape" and ft.get("escape") == "escape" and ft.get("safe") == "do_mark_safe" and ft.get("tojson") == "do_tojson" and ft.get("xmlattr") == "do_xmlattr" and ft.get("urlize") == "do_urlize", "FILTERS", "filters:FILTERS", "registrations", "escape / safe / tojson / xmlattr / urlize registrations changed", "src/jinja2/filters.py")
+    # what a filter block / filtered set block hands to the filter is Markup exactly when
+    # autoescaping is on at run time (rules owned by C15)
+    from . import c15
+
+    ctx.run_imported("C15", {"R3", "R6"}, c15.check)
     return __doc__ or ""
